@@ -3,11 +3,10 @@
 // C25: server stop semantics and the per-connection handler limit.
 //verif:pkg .
 //verif:bound loop=40 steps=6000000 preempt=2 paths=1500000
-//verif:thorough preempt=3 paths=6000000
 //verif:stub (*google.golang.org/grpc.Server).handleStream => verifStubHandleStream
 //verif:noop google.golang.org/grpc/internal/channelz.RemoveEntry
 //verif:noreplay schedule-dependent: witnesses are re-executed deterministically in the engine from the recorded decision prefix
-//verif:outside the accept loop and real transports (a harness ServerTransport delivers up to 3 streams and ends when closed or drained); what clients observe on the wire; more than one connection and 3 requests; preemption bound 2 (quick) / 3 (thorough)
+//verif:outside the accept loop and real transports (a harness ServerTransport delivers up to 3 streams and ends when closed or drained); what clients observe on the wire; more than one connection and 3 requests; preemption bound 2
 package grpc
 
 import (
